@@ -2672,7 +2672,8 @@ fix_rrul_dflts(struct rrulsp_s rr, echs_instant_t from, bool multi)
 }
 
 static echs_instant_t
-until_in_rule_terms(echs_instant_t u, echs_tzob_t zon, echs_scale_t sca)
+until_in_rule_terms(
+	echs_instant_t u, echs_tzob_t zon, echs_scale_t sca, echs_instant_t from)
 {
 /* rules are expanded in local time and in their scale, UNTIL comes in UTC
  * (when DTSTART has a zone) and in the Gregorian calendar */
@@ -2683,7 +2684,15 @@ until_in_rule_terms(echs_instant_t u, echs_tzob_t zon, echs_scale_t sca)
 		u = echs_instant_detach_tzob(echs_instant_loc(u, zon));
 	}
 	if (sca != SCALE_GREGORIAN) {
+		const bool aftp = !echs_instant_lt_p(u, from);
+
 		u = echs_instant_detach_scale(echs_instant_rescale(u, sca));
+		if (UNLIKELY(echs_nul_instant_p(u) && aftp)) {
+			/* the rule's calendar doesn't reach there, then it's
+			 * the calendar that ends the rule, not UNTIL,
+			 * unless UNTIL lies before it all of course */
+			u = echs_max_instant();
+		}
 	}
 	return u;
 }
@@ -2719,7 +2728,7 @@ __make_evrrul(echs_event_t e, rrulsp_t rr, size_t nr, bool exc, bool multi)
 	this->rrul = fix_rrul_dflts(rr[0U], this->seed, multi);
 	this->until = this->rrul.until;
 	this->rrul.until = until_in_rule_terms(
-		this->until, zon, this->rrul.scale);
+		this->until, zon, this->rrul.scale, this->seed);
 	this->seq = 0U;
 	this->ref = nr;
 	that[0U] = this;
@@ -2729,7 +2738,7 @@ __make_evrrul(echs_event_t e, rrulsp_t rr, size_t nr, bool exc, bool multi)
 		this[i].rrul = fix_rrul_dflts(rr[i], this->seed, multi);
 		this[i].until = this[i].rrul.until;
 		this[i].rrul.until = until_in_rule_terms(
-			this[i].until, zon, this[i].rrul.scale);
+			this[i].until, zon, this[i].rrul.scale, this->seed);
 		this[i].seq = i;
 		that[i] = this + i;
 	}
